@@ -275,7 +275,11 @@ class UnionMarshaller(AbstractMarshaller[UnionT], tp.Generic[UnionT]):
         super().__init__(t, context, var=var)
         self.stack = inspection.args(t, evaluate=True)
         self.nullable = inspection.isoptionaltype(t)
-        self.ordered_routines = [self.context[typ] for typ in self.stack]
+        # `None` is handled up-front: its pass-through routine would accept any value.
+        nonetype = type(None)
+        self.ordered_routines = [
+            self.context[typ] for typ in self.stack if typ is not nonetype
+        ]
 
     def __call__(self, val: UnionT) -> serdes.MarshalledValueT:
         """Marshal a value into the bound `UnionT`.
